@@ -80,6 +80,14 @@ def run(ck):
                 else:
                     parts = x.split(','); parts[f['pos']] = '9' * 400; a0[f['idx']] = ','.join(parts)
                 argv = a0
+                # … and once more with both output files requested (the writers format the numbers again)
+                ao = a0 + ['--output-basic-input=' + fuzzcmd.OUTPATHS[0], '--output-cmdline=' + fuzzcmd.OUTPATHS[0] + '.cmd']
+                oo, deto = fuzzcmd.outcome(ao, limit=8)
+                ck.case(('bigint+output', f['name']), True)
+                ck.count('bigint_output_' + oo)
+                if oo not in ('usage', 'diag', 'report', 'timeout'):
+                    viol.append(dict(kind='bigint+output', argv=[a if len(a) < 60 else a[:30] + '…(%d characters)' % len(a) for a in ao],
+                                     argv_full=ao, observed='%s %s' % (oo, deto), field=f['name'], cls='bigint'))
             else:
                 argv = c20table.mutated(f, c)
                 if argv is None or c == 'pos':
